@@ -86,6 +86,11 @@ def cases(seed, tier, shard, nshards):
         if use_bib:
             prefix += 'Cite \\cite{zk1} and \\cite{zk2}.\n\n'
         suffix = '\n\n' + src_refs + '\n'
+        if r.random() < 0.35:
+            # footnotes with identical text (and an identical pair of index entries): equal content must not be taken for the same node
+            note = '\\footnote{Zf%dy same note}' % r.randint(1, 2)
+            prefix += 'Fna %s Fnb %s\n\n' % (note, note)
+            suffix += '\nFnc %s\n' % note
         if use_bib:
             suffix += '\n\\begin{thebibliography}{9}\\bibitem{zk1} BibA1z \\bibitem{zk2} BibA2z \\end{thebibliography}\n'
         if use_index:
